@@ -157,11 +157,15 @@ def run(c, facts, tier):
             flt = bool(re.search(r"as f(32|64)|f64|f32", cn))
             c.ob("C07.display", "<Test as TargetScheme>::compile", "%s [%s]" % (cn[:60], r["cond"][:50]), spec == "" and not flt, "number is rendered by Display `{}`%s" % ("" if spec == "" else " with format spec `%s` (width/precision/radix changes the digits)" % spec), nontrivial=False)
     c.floor("numeric holes in test templates", nh, 40)
-    comp = None
-    for k, fn in facts.fns.items():
-        if fn.name == "compile" and fn.impl is None and not fn.test and fn.node["vis"] == "pub":
-            comp = fn
-    thr = [st for st in comp.body["stmts"] if st["k"] == "let" and st["init"] is not None and find_all(st["init"], lambda x: x.get("k") == "field" and x["name"] == "threads")]
-    ok = bool(thr) and bool(find_all(thr[0]["init"], lambda x: x.get("k") == "mcall" and x["m"] == "to_string" and not x["args"])) and not find_all(thr[0]["init"], lambda x: x.get("k") == "cast")
-    c.ob("C07.display", comp.key, "thread count rendered by to_string()", ok, "`%s`" % (src(thr[0]["init"])[:90] if thr else None))
+    from .. import toplevel
+
+    T_ = toplevel.summary(facts)
+    comp = T_["fn"]
+    rend = set()
+    for p_ in T_["paths"]:
+        if p_["outcome"] == "ok" and p_["fields"] and p_["conds"].get("@1.threads") == "Some":
+            o_ = p_["fields"].get("options")
+            rend.add(emit.canon_parts(o_["parts"]) if isinstance(o_, dict) and o_.get("v") == "str" else (emit.canon(o_) if isinstance(o_, dict) else str(o_)))
+    ok = bool(rend) and all(re.fullmatch(r"\{@1\.threads\.some\}", t_) for t_ in rend)
+    c.ob("C07.display", comp.key, "thread count rendered by to_string()", ok, "options text when a count was given: %s (the number itself, plain Display, no cast or arithmetic)" % sorted(rend))
     c.control("C07.no-arith", bool(LOSSY.search("core::num::<impl u64>::wrapping_mul")) and bool(LOSSY.search("core::num::<impl u64>::saturating_mul")), "fixture callees wrapping_mul / saturating_mul are recognised as lossy")
